@@ -113,12 +113,16 @@ Fixpoint number_opts (pfx : str) (n : N) (l : list str) : list (str * N) :=
 
 Definition unspecified : str := b "UNSPECIFIED".
 
+(* enum.go isExplicitZero (fix a65e1f2): the first option spells the zero value - UNSPECIFIED or
+   <PREFIX>UNSPECIFIED - exactly when the name addValue gives it is <PREFIX>UNSPECIFIED *)
+Definition explicit_zero (pfx o : str) : bool := str_eqb (value_name pfx o) (pfx ++ unspecified).
+
 (* visitEnumNode *)
 Definition cv_enum (name : str) (e : enum) : denum :=
   let pfx := enum_prefix name (e_prefix e) in
   match e_opts e with
   | o :: r =>
-      if has_suffix unspecified o
+      if explicit_zero pfx o
       then mkDenum name ((value_name pfx o, 0) :: number_opts pfx 1 r)
       else mkDenum name ((pfx ++ unspecified, 0) :: number_opts pfx 1 (o :: r))
   | [] => mkDenum name [(pfx ++ unspecified, 0)]
@@ -180,11 +184,14 @@ with cv_property (ev : env) (path : list str) (inoneof : bool) (num : N) (p : pr
       let sn := snake n in
       let finish (c : fcore) (lbl : plabel) (ty : ptype) (tn : str) (msgs : list dmsg) (imps : list str) :=
         if req && opt then Err "cannot be both required and optional"
-        else if inoneof && opt
-        then Err "optional oneof member"   (* outside the language; see notes/cmpa.md *)
+        (* visitOneofNode (fix a0446fc): protobuf does not allow a repeated field in a oneof (the map
+           arm answers before it gets here) *)
+        else if inoneof && plabel_eqb lbl LRepeated
+        then Err "an array cannot be an option of a oneof"
         (* fix d536c9b: proto3_optional (and the synthetic oneof) only when the label is not
-           REPEATED - an optional array or map is a plain repeated field *)
-        else Ok (mkPres [mkField sn n num ty lbl (opt && negb (plabel_eqb lbl LRepeated)) tn inoneof]
+           REPEATED - an optional array or map is a plain repeated field; fix a0446fc: nor for an
+           option of a oneof (a member of the wrapper's oneof cannot be in a synthetic one) *)
+        else Ok (mkPres [mkField sn n num ty lbl (opt && negb (plabel_eqb lbl LRepeated) && negb inoneof) tn inoneof]
                         msgs (fc_enums c)
                         (imps ++ if req then [imp_validate; imp_ext] else [])) in
       match f with
@@ -196,9 +203,8 @@ with cv_property (ev : env) (path : list str) (inoneof : bool) (num : N) (p : pr
       | FMap it =>
           obind (cv_item ev path (camel n) it) (fun c =>
             let en := map_name sn in
-            (* a oneof member's entry message is added to the parent of the oneof message, where
-               the linker does not accept it as a map entry *)
-            if inoneof then Err "map entry outside its message" else
+            (* visitOneofNode (fix 466a7f9): a map cannot be an option of a oneof *)
+            if inoneof then Err "a map cannot be an option of a oneof" else
             finish c LRepeated TMessage en
                    (fc_msgs c ++ [DMsg en MMapEntry [key_field; value_field c] [] []])
                    (fc_imports c))
@@ -420,8 +426,10 @@ Fixpoint cv_files (exports : str -> option (list typeref)) (fs : list bfile) : o
   match fs with
   | [] => Ok []
   | BJ f :: r =>
-      obind (cv_file exports f) (fun a =>
-      obind (cv_files exports r) (fun c => Ok (a ++ c)))
+      if file_lists_ok f then
+        obind (cv_file exports f) (fun a =>
+        obind (cv_files exports r) (fun c => Ok (a ++ c)))
+      else Err "list method: the response must have exactly one array of objects"
   | BP _ :: r => cv_files exports r
   end.
 
